@@ -2,6 +2,7 @@ package webpmeta
 
 import (
 	"fmt"
+	"io"
 
 	"github.com/mandykoh/prism/meta/binary"
 )
@@ -16,8 +17,8 @@ func (ch chunkHeader) String() string {
 }
 
 func readChunkHeader(r binary.Reader) (ch chunkHeader, err error) {
-	bytesRead, err := r.Read(ch.ChunkType[:])
-	if err != nil {
+	bytesRead, err := io.ReadFull(r, ch.ChunkType[:])
+	if err != nil && err != io.ErrUnexpectedEOF {
 		return ch, err
 	}
 	if bytesRead != len(ch.ChunkType) {
